@@ -74,12 +74,27 @@ func (e *Exec) compare(d *Dump) {
 		want[pn.Path] = pn.Node
 	}
 	// tree
+	underDense := func(p string) bool {
+		for {
+			parent, _ := model.Split(p)
+			if parent == "" || parent == "/" || parent == p {
+				return false
+			}
+			if n := e.m.Lookup(parent); n != nil && n.Dense {
+				return true
+			}
+			p = parent
+		}
+	}
 	for _, pn := range paths {
 		od := d.ByPath[pn.Path]
 		if od == nil {
 			kind := pn.Node.Kind
 			if pn.Node.Dense {
 				kind = "dense-group"
+			}
+			if underDense(pn.Path) {
+				kind = "member-of-dense-group"
 			}
 			e.violate("tree", "missing:"+kind, "path "+pn.Path+" missing after reopen")
 			continue
@@ -109,6 +124,9 @@ func (e *Exec) compare(d *Dump) {
 	// hard links resolve to the same object
 	byID := map[int][]string{}
 	for _, pn := range paths {
+		if pn.Cut || underDense(pn.Path) {
+			continue
+		}
 		if pn.Node.Kind == "dataset" || pn.Node.Kind == "group" {
 			byID[pn.Node.ID] = append(byID[pn.Node.ID], pn.Path)
 		}
